@@ -107,6 +107,83 @@ func secMatrix(seed uint64) {
 			}
 			emit(o)
 		}
+		// renewals: a channel opened with an accepted pair asks for a new token with another mode (the client library sends
+		// whatever mode its configuration holds at that moment)
+		for _, cl := range clients {
+			for _, m2 := range []ua.MessageSecurityMode{1, 2, 3} {
+				if (cl.Policy == "None") != (m2 == 1) {
+					continue // the client library cannot build such a request (it panics or refuses on its own side); raw frames below
+				}
+				ccfg := &uasc.Config{SecurityPolicyURI: uriOf(cl.Policy), SecurityMode: cl.Mode, Lifetime: 3600000, RequestTimeout: 2 * time.Second}
+				if cl.Policy != "None" {
+					ccfg.Certificate, ccfg.LocalKey, ccfg.RemoteCertificate = ccert, ckey, scert
+					ccfg.Thumbprint = uapolicy.Thumbprint(scert)
+				}
+				rc, err := dialRaw(context.Background(), s.url, ccfg)
+				if err != nil {
+					break // not opened with this pair: nothing to renew
+				}
+				o := map[string]any{"t": "sec", "renew": true, "config": c.name, "enabled": enabled, "advertised": advertised, "has_key": c.key,
+					"from": [2]int{idx[uriOf(cl.Policy)], int(cl.Mode)}, "client": [2]int{idx[uriOf(cl.Policy)], int(m2)},
+					"client_name": fmt.Sprintf("renew:%s/%d->%d", cl.Policy, cl.Mode, m2), "urls": len(s.srv.URLs())}
+				ccfg.SecurityMode = m2
+				rctx, cancel := context.WithTimeout(context.Background(), 2*time.Second)
+				err = rc.sc.Renew(rctx)
+				cancel()
+				o["opened"] = err == nil
+				if err != nil {
+					o["err"] = err.Error()
+					o["status"] = errStatus(err)
+				} else {
+					_, err := rc.call(&ua.GetEndpointsRequest{EndpointURL: s.url}, nil, 2*time.Second)
+					o["served"] = err == nil
+				}
+				rc.close()
+				emit(o)
+			}
+		}
+		// raw renewals on an unsecured channel: Issue None/None, then Renew naming another mode
+		for _, m2 := range []int{1, 2, 3, 0, 4} {
+			var port int
+			fmt.Sscanf(s.url, "opc.tcp://localhost:%d", &port)
+			o := map[string]any{"t": "sec", "raw": true, "renew": true, "config": c.name, "enabled": enabled, "advertised": advertised, "has_key": c.key,
+				"from": [2]int{0, 1}, "client": [2]int{0, m2}, "client_name": fmt.Sprintf("rawrenew:0/1->%d", m2), "urls": len(s.srv.URLs())}
+			conn, err := helloConn(port)
+			if err != nil {
+				continue
+			}
+			conn.Write(opnFrame(1, 1))
+			_, body, err := readMessage(conn, 700*time.Millisecond)
+			var chanID uint32
+			if err == nil {
+				if _, svc, derr := ua.DecodeService(body); derr == nil {
+					if r, ok := svc.(*ua.OpenSecureChannelResponse); ok {
+						chanID = r.SecurityToken.ChannelID
+					}
+				}
+			}
+			if chanID == 0 {
+				conn.Close()
+				continue
+			}
+			conn.Write(opnFrameKind(ua.SecurityPolicyURINone, ua.MessageSecurityMode(m2), ua.SecurityTokenRequestTypeRenew, chanID, 2, 2))
+			typ, body, err := readMessage(conn, 700*time.Millisecond)
+			switch {
+			case err != nil:
+				o["opened"], o["err"] = false, err.Error()
+			case typ == "OPN":
+				_, svc, derr := ua.DecodeService(body)
+				_, isOPN := svc.(*ua.OpenSecureChannelResponse)
+				o["opened"] = derr == nil && isOPN
+			case typ == "ERR" && len(body) >= 4:
+				o["opened"] = false
+				o["status"] = binary.LittleEndian.Uint32(body)
+			default:
+				o["opened"], o["err"] = false, "unexpected "+typ
+			}
+			conn.Close()
+			emit(o)
+		}
 		// raw OpenSecureChannel frames: pairs the library's client refuses to ask for, and an unknown policy URI
 		var port int
 		fmt.Sscanf(s.url, "opc.tcp://localhost:%d", &port)
